@@ -14,6 +14,7 @@ and fetches may occur anywhere; every connect also carries an arbitrary `full` b
 FlushIfNeeded that ends `connectBlock`.
 -/
 import BV.C03.Run
+import BV.C03.ValidLemmas
 import BV.Generated.C03
 namespace BV.C03
 open Spec Lemmas
@@ -182,6 +183,17 @@ theorem journal_of_connect (s : State) (b : Block) (validate bip30 full : Bool) 
 theorem totalTxns_connect (chain : List Block) (b : Block) :
     totalTxns (chain ++ [b]) = totalTxns chain + (1 + b.txs.length) := by
   simp [totalTxns]; omega
+
+/-! ### the histories the correspondence runs are well formed -/
+
+/-- The executable block check of the line-protocol driver (`blockOk`, BV/C03/Valid.lean:
+no duplicate input, distinct txids in the block, BIP30 scan, every input exists when spent
+and is mature) implies `Spec.validBlock` when the BIP30 scan is on. Hence on BIP34-inactive
+params every block the driver (and btcd) accepts satisfies the hypothesis of the theorems
+above; with the scan skipped (BIP34 active) the no-overwrite half is the explicit hypothesis. -/
+theorem accepted_block_valid (maturity : Nat) (u : UtxoSet) (h : Nat) (b : Block)
+    (hok : blockOk true maturity u h b = true) : validBlock u h b :=
+  blockOk_valid maturity u h b hok
 
 /-! ### cache primitives (what the chain-level theorems rest on) -/
 
